@@ -3,6 +3,7 @@
 and TLC validates the recorded observations (Trace_Households)."""
 from __future__ import annotations
 
+import os
 import itertools
 import random
 from pathlib import Path
@@ -30,7 +31,7 @@ def write_cfg(path, maxn, ages, nhh, family, marriage, invariants=("InvNesting",
 
 def enumerate_structures(work, name, maxn, ages, nhh, family, marriage, workers=NCPU, simulate=None, seed=0, depth=None):
     """Run MC_Households; returns (TLCResult, [pop, ...]) with pop a list of person dicts."""
-    cfg = tlc.SPEC_DIR / f"_gen_{name}.cfg"
+    cfg = tlc.SPEC_DIR / f"_gen_{name}_{os.getpid()}.cfg"
     write_cfg(cfg, maxn, ages, nhh, family, marriage)
     dump = Path(work) / f"dump_{name}"
     try:
@@ -52,7 +53,7 @@ def _sim_one(job):
     import glob
     import shutil
 
-    cfg = tlc.SPEC_DIR / f"_gen_{name}_{seed}.cfg"
+    cfg = tlc.SPEC_DIR / f"_gen_{name}_{seed}_{os.getpid()}.cfg"
     write_cfg(cfg, maxn, ages, nhh, family, marriage, invariants=("InvNesting", "InvPointers"))
     d = Path(work) / f"sim_{name}_{seed}"
     d.mkdir(parents=True, exist_ok=True)
